@@ -82,3 +82,12 @@ Proof.
                                   Z.pos_sub Z.succ_double Z.pred_double Z.double Pos.pred_double Z.opp Z.sub Pos.succ Z.leb Z.geb andb base16 fst snd];
          rewrite G, S; unfold zlen; cbn [Datatypes.length]; rewrite le_length; reflexivity ]).
 Qed.
+
+(** in 32-bit mode an operand addressed through BX/BP/SI/DI is encoded with the same 16-bit table (behind the 67h prefix
+    supplied by Require67h): since fix a2cd525 the bytes do not depend on the mode *)
+Lemma modrm16_mode_indep b i sc d rb : is16reg b || is16reg i = true ->
+  calc_modrm (mk_mem b i sc d) M32 rb = calc_modrm (mk_mem b i sc d) M16 rb.
+Proof. intros H. unfold calc_modrm. cbn [m_base m_index mk_mem]. rewrite H. reflexivity. Qed.
+
+Lemma shapes16_are_16 : forallb (fun x => match x with (b, i, _, _) => is16reg b || is16reg i end) shapes16 = true.
+Proof. vm_compute. reflexivity. Qed.
